@@ -19,15 +19,52 @@ func runC12(cfg *runCfg) error {
 		}
 		_ = wi
 		for _, c := range [][3]bool{{false, false, false}, {true, false, false}} {
-			rsEnumerate(w, depth, c[0], c[1], c[2], func(sc *rsScenario) { enum = append(enum, sc) })
+			d := depth
+			if cfg.tier == "thorough" && rsPacketsBound(w.Ops) <= 3 {
+				d = 3 // every placement of three consecutive faults for the small workloads
+			}
+			rsEnumerate(w, d, c[0], c[1], c[2], func(sc *rsScenario) { enum = append(enum, sc) })
 		}
 	}
+	// a transport whose failing Write returns exactly io.EOF: the library hands that error back bare, without a
+	// retry handle, and the RetryClient gives the request up; whatever IS transmitted must still be faithful
+	var eof []*rsScenario
+	onlyWriteFail := func(sc *rsScenario) bool {
+		for _, f := range sc.Faults {
+			if f.Kind != fWriteFail {
+				return false
+			}
+		}
+		return len(sc.Faults) > 0
+	}
+	for wi, w := range rsWorkloads {
+		if wi > 3 {
+			continue
+		}
+		rsEnumerate(w, 2, false, false, false, func(sc *rsScenario) {
+			if onlyWriteFail(sc) {
+				sc.EOFWrites = true
+				eof = append(eof, sc)
+			}
+		})
+	}
+	for _, sc := range rsRandomFamily(cfg.seed+77, n/2, [5]int{2, 4, 4, 1, 0}, false, false) {
+		for _, f := range sc.Faults {
+			if f.Kind == fWriteFail {
+				sc.EOFWrites = true
+				eof = append(eof, sc)
+				break
+			}
+		}
+	}
+	rsPredOnly["eof"] = true
 	fams := []rsFamily{
 		{"corpus", rsCorpus()},
 		{"enum", enum},
 		{"random", rsRandomFamily(cfg.seed, n, [5]int{2, 4, 4, 1, 0}, false, false)},
+		{"eof", eof},
 	}
-	rule := "publish workloads x every placement of closing faults on every packet; random scenarios of 1-4 connections, identifiers chosen by the library and by the caller; judged on all PUBLISH/PUBREL packets of each message across connections: same identifier/topic/payload/QoS/retain, DUP=0 first then 1, QoS0 never retransmitted, no PUBLISH after a PUBREL was handed to the transport; non-trivial = distinct scenario in which some message was transmitted at least twice. Family handle (real BaseClients, no RetryClient): Publish QoS1/QoS2 interrupted at every point (PUBLISH write fails / closed / ctx done while waiting, the same at the PUBREL step), the ErrorWithRetry retried on a fresh client, the same client or a never-connected one, with no other request or with other requests blocked un-acknowledged under the SAME packet identifier (Publish waiting PUBACK / PUBREC / PUBCOMP, Subscribe, Unsubscribe; identifier given by the caller or drawn by the library), each second attempt under every environment, plus random chains of 3-4 attempts; identifiers caller-provided, library-chosen, at the 16-bit wrap; judged on every PUBLISH/PUBREL written during each call and on Message.ID after it"
+	rule := "publish workloads x every placement of closing faults on every packet; random scenarios of 1-4 connections, identifiers chosen by the library and by the caller; judged on all PUBLISH/PUBREL packets of each message across connections: same identifier/topic/payload/QoS/retain, DUP=0 first then 1, QoS0 never retransmitted, no PUBLISH after a PUBREL was handed to the transport; family eof (predicate only, not compared with the model): the same with a transport whose failing Write returns exactly io.EOF; non-trivial = distinct scenario in which some message was transmitted at least twice. Family handle (real BaseClients, no RetryClient): Publish QoS1/QoS2 interrupted at every point (PUBLISH write fails / closed / ctx done while waiting, the same at the PUBREL step), the ErrorWithRetry retried on a fresh client, the same client or a never-connected one, with no other request or with other requests blocked un-acknowledged under the SAME packet identifier (Publish waiting PUBACK / PUBREC / PUBCOMP, Subscribe, Unsubscribe; identifier given by the caller or drawn by the library), each second attempt under every environment, plus random chains of 3-4 attempts; identifiers caller-provided, library-chosen, at the 16-bit wrap; judged on every PUBLISH/PUBREL written during each call and on Message.ID after it"
 	return rsRunProperty(cfg, "C12", "c12_ok", fams, rule, func(sc *rsScenario, o *rsObs) bool {
 		cnt := map[string]int{}
 		for _, w := range o.Wire {
